@@ -164,6 +164,14 @@ Proof.
   rewrite (H a E1), IH by assumption. reflexivity.
 Qed.
 
+Lemma xfold_ext (f g : N -> N) l k :
+  (forall a, a < k -> f a = g a) -> forallb (fun a => a <? k) l = true -> xfold f l = xfold g l.
+Proof.
+  intros H. induction l as [|a l IH]; cbn [xfold forallb]; [reflexivity|].
+  intros E. apply andb_true_iff in E as [E1 E2]. apply N.ltb_lt in E1.
+  rewrite (H a E1), IH by assumption. reflexivity.
+Qed.
+
 Lemma nval_ext vs more n : args_lt n (N.of_nat (length vs)) = true -> nval (vs ++ more) n = nval vs n.
 Proof.
   assert (Hn : forall a, a < N.of_nat (length vs) -> nth (N.to_nat a) (vs ++ more) 0 = nth (N.to_nat a) vs 0)
@@ -175,6 +183,7 @@ Proof.
     intros x Hx. rewrite (Hn x Hx). reflexivity.
   - apply andb_true_iff in E as [E1 E2]. apply N.ltb_lt in E1. apply N.ltb_lt in E2.
     rewrite (Hn _ E1), (Hn _ E2). reflexivity.
+  - f_equal. apply (xfold_ext _ _ _ (N.of_nat (length vs))); assumption.
 Qed.
 
 Definition wf (s : tbl) : Prop :=
@@ -210,6 +219,7 @@ Proof.
   - intros E. rewrite forallb_forall in *. intros p Hp. apply L, E, Hp.
   - apply bf_lt_mono. exact Hk.
   - intros E. apply andb_true_iff in E as [E1 E2]. rewrite (L _ E1), (L _ E2). reflexivity.
+  - intros E. rewrite forallb_forall in *. intros p Hp. apply L, E, Hp.
 Qed.
 
 Lemma V_node s i n b : wf s -> nth_error s i = Some (n, b) -> V s (N.of_nat i) = nval (tvals s) n.
@@ -238,6 +248,12 @@ Proof.
   apply N.eqb_eq in E1. apply N.eqb_eq in E2. subst. f_equal. auto.
 Qed.
 
+Lemma list_N_eqb_eq a b : list_nat_eqb a b = true -> a = b.
+Proof.
+  revert b. induction a as [|x a IH]; intros [|y b]; cbn [list_nat_eqb]; try discriminate; [reflexivity|].
+  intros E. apply andb_true_iff in E as [E1 E2]. apply N.eqb_eq in E1. subst. f_equal. auto.
+Qed.
+
 Lemma node_eqb_eq a b : node_eqb a b = true -> a = b.
 Proof.
   destruct a, b; cbn [node_eqb]; try discriminate; intros E;
@@ -246,6 +262,7 @@ Proof.
     | H : Nat.eqb _ _ = true |- _ => apply Nat.eqb_eq in H
     | H : N.eqb _ _ = true |- _ => apply N.eqb_eq in H
     | H : list_pair_eqb _ _ = true |- _ => apply list_pair_eqb_eq in H
+    | H : list_nat_eqb _ _ = true |- _ => apply list_N_eqb_eq in H
     | H : bf_eqb _ _ = true |- _ => apply bf_eqb_eq in H
     end; subst; reflexivity.
 Qed.
@@ -597,32 +614,188 @@ Proof.
   split; [apply ror_from_shifts_xor|apply ror_from_shifts]; first [assumption|reflexivity].
 Qed.
 
+(* ---- xor linear forms ---- *)
+
+Lemma lxor_cancel x A B : N.lxor (N.lxor x A) (N.lxor x B) = N.lxor A B.
+Proof. apply N.bits_inj; intro i; rewrite !N.lxor_spec; destruct (N.testbit x i), (N.testbit A i), (N.testbit B i); reflexivity. Qed.
+Lemma lxor_r x A B : N.lxor A (N.lxor x B) = N.lxor x (N.lxor A B).
+Proof. apply N.bits_inj; intro i; rewrite !N.lxor_spec; destruct (N.testbit x i), (N.testbit A i), (N.testbit B i); reflexivity. Qed.
+Lemma lxor4 a A b B : N.lxor (N.lxor a A) (N.lxor b B) = N.lxor (N.lxor a b) (N.lxor A B).
+Proof.
+  apply N.bits_inj; intro i; rewrite !N.lxor_spec.
+  destruct (N.testbit a i), (N.testbit A i), (N.testbit b i), (N.testbit B i); reflexivity.
+Qed.
+
+Lemma xmerge_ok v : forall l1 l2, xfold v (xmerge l1 l2) = N.lxor (xfold v l1) (xfold v l2).
+Proof.
+  induction l1 as [|a r1 IH]; intro l2; [destruct l2; cbn [xmerge xfold]; rewrite ?N.lxor_0_l; reflexivity|].
+  induction l2 as [|b r2 IH2]; [cbn [xmerge xfold]; rewrite N.lxor_0_r; reflexivity|].
+  change (xmerge (a :: r1) (b :: r2)) with
+    (if b <? a then a :: xmerge r1 (b :: r2) else if a <? b then b :: xmerge (a :: r1) r2 else xmerge r1 r2).
+  destruct (N.ltb_spec b a); [|destruct (N.ltb_spec a b)].
+  - cbn [xfold]. rewrite IH. cbn [xfold]. symmetry. apply N.lxor_assoc.
+  - cbn [xfold] in *. rewrite IH2. rewrite (lxor_r (v b)). reflexivity.
+  - assert (a = b) by lia. subst b. rewrite IH. cbn [xfold]. symmetry. apply lxor_cancel.
+Qed.
+
+Lemma xmerge_forall (P : N -> bool) : forall l1 l2, forallb P l1 = true -> forallb P l2 = true -> forallb P (xmerge l1 l2) = true.
+Proof.
+  induction l1 as [|a r1 IH]; intro l2; [destruct l2; auto|].
+  induction l2 as [|b r2 IH2]; intros H1 H2; [exact H1|].
+  change (xmerge (a :: r1) (b :: r2)) with
+    (if b <? a then a :: xmerge r1 (b :: r2) else if a <? b then b :: xmerge (a :: r1) r2 else xmerge r1 r2).
+  pose proof H1 as H1'. pose proof H2 as H2'. cbn [forallb] in H1', H2'.
+  apply andb_true_iff in H1' as [Ha Hr1]. apply andb_true_iff in H2' as [Hb Hr2].
+  destruct (b <? a); [|destruct (a <? b)]; cbn [forallb].
+  - rewrite Ha, IH by assumption. reflexivity.
+  - rewrite Hb, IH2 by assumption. reflexivity.
+  - apply IH; assumption.
+Qed.
+
+Lemma xfold_app v a b : xfold v (a ++ b) = N.lxor (xfold v a) (xfold v b).
+Proof. induction a as [|x a IH]; cbn [app xfold]; [rewrite N.lxor_0_l; reflexivity|]. rewrite IH. symmetry. apply N.lxor_assoc. Qed.
+Lemma xfold_rev v l : xfold v (rev l) = xfold v l.
+Proof.
+  induction l as [|x l IH]; [reflexivity|]. cbn [rev]. rewrite xfold_app, IH. cbn [xfold].
+  rewrite N.lxor_0_r. apply N.lxor_comm.
+Qed.
+Lemma fold_lxor_xfold v : forall l c, fold_left (fun acc x => N.lxor acc (v x)) l c = N.lxor c (xfold v l).
+Proof.
+  induction l as [|x l IH]; intro c; cbn [fold_left xfold]; [rewrite N.lxor_0_r; reflexivity|].
+  rewrite IH. apply N.lxor_assoc.
+Qed.
+
+Lemma bleaf_eval b x : beval b (bleaf x) = b x.
+Proof. unfold bleaf. cbn [beval]. destruct (b x); reflexivity. Qed.
+
+Lemma bxor_chain_eval b : forall sup f,
+  beval b (fold_left (fun acc x => bapply xorb acc (bleaf x)) sup f) = fold_left (fun acc x => xorb acc (b x)) sup (beval b f).
+Proof.
+  induction sup as [|x sup IH]; intro f; cbn [fold_left]; [reflexivity|].
+  rewrite IH, bapply_eval, bleaf_eval. reflexivity.
+Qed.
+
+Lemma bsupport_lt f k : bf_lt f k = true -> forallb (fun x => x <? k) (bsupport f) = true.
+Proof.
+  induction f as [c|x l IHl h IHh]; [reflexivity|]. intros E. apply bf_lt_BN in E as (E1 & E2 & E3).
+  cbn [bsupport forallb]. apply N.ltb_lt in E1. rewrite E1, IHl by assumption. reflexivity.
+Qed.
+
+Lemma build_xor_chain (v : N -> N) w : forall sup (F : N -> bool),
+  Forall (fun x => v x < 2 ^ w) sup ->
+  build (fun i => fold_left (fun acc x => xorb acc (N.testbit (v x) i)) sup (F i)) (N.to_nat w) =
+  fold_left (fun acc x => N.lxor acc (v x)) sup (build F (N.to_nat w)).
+Proof.
+  induction sup as [|x sup IH]; intros F Hs; cbn [fold_left]; [reflexivity|].
+  inversion Hs; subst. rewrite (IH (fun i => xorb (F i) (N.testbit (v x) i))) by assumption. f_equal.
+  transitivity (N.lxor (build F (N.to_nat w)) (build (N.testbit (v x)) (N.to_nat w)));
+    [symmetry; apply (build_bop OXor)|f_equal; apply build_id; assumption].
+Qed.
+
+Lemma bleaf_ok s w a : wf s -> inb s a -> (bw s a <=? w) = true ->
+  bf_lt (bleaf a) (N.of_nat (length s)) = true /\ V s a = bitval s w (bleaf a).
+Proof.
+  intros Hwf Ha Hb. split; [apply bf_lt_BN_intro; [exact Ha|reflexivity|reflexivity]|].
+  unfold bitval. rewrite (build_ext _ (N.testbit (V s a))) by (intro i; exact (bleaf_eval (fun x => N.testbit (V s x) i) a)).
+  symmetry. apply build_id. apply (V_le _ _ _ Hwf Ha Hb).
+Qed.
+
+Lemma bfof_small_ok s w a :
+  wf s -> inb s a -> (bw s a <=? w) = true ->
+  bf_lt (bfof_small s w a) (N.of_nat (length s)) = true /\ V s a = bitval s w (bfof_small s w a).
+Proof.
+  intros Hwf Ha Hb. unfold bfof_small. destruct (Nat.leb (bleaves (bfof s w a)) KLEAVES);
+    [apply bfof_ok|apply bleaf_ok]; assumption.
+Qed.
+
+Lemma xorform_ok s w a c l :
+  wf s -> inb s a -> (bw s a <=? w) = true -> xorform s w a = (c, l) ->
+  forallb (fun x => x <? N.of_nat (length s)) l = true /\ V s a = N.lxor c (xfold (V s) l).
+Proof.
+  intros Hwf Ha Hb. unfold xorform.
+  assert (Hleaf : forallb (fun x => x <? N.of_nat (length s)) [a] = true /\ V s a = N.lxor 0 (xfold (V s) [a])).
+  { split; [cbn [forallb]; unfold inb in Ha; apply N.ltb_lt in Ha; rewrite Ha; reflexivity|].
+    cbn [xfold]. rewrite N.lxor_0_l, N.lxor_0_r. reflexivity. }
+  destruct (node_of s a) as [n|] eqn:E; [|intros [= <- <-]; exact Hleaf].
+  destruct n; try (intros [= <- <-]; exact Hleaf).
+  - intros [= <- <-]. rewrite (node_of_V _ _ _ Hwf E). cbn [CKSym.nval xfold forallb]. split; [reflexivity|]. rewrite N.lxor_0_r. reflexivity.
+  - destruct (N.eqb_spec w0 w) as [->|]; [|intros [= <- <-]; exact Hleaf].
+    destruct (bf_pure_xor f) as [[k sup]|] eqn:Ep; [|intros [= <- <-]; exact Hleaf].
+    destruct (forallb (fun x => bw s x <=? w) sup) eqn:Eb; [|intros [= <- <-]; exact Hleaf].
+    intros [= <- <-].
+    unfold bf_pure_xor in Ep. destruct (bf_eqb f (bxor_of (bconst0 f) (bsupport f))) eqn:Eq; [|discriminate].
+    apply bf_eqb_eq in Eq. inversion Ep; subst k sup. clear Ep.
+    pose proof (node_of_args _ _ _ Hwf E) as Hargs. cbn [args_lt] in Hargs.
+    pose proof (bsupport_lt _ _ Hargs) as Hsup.
+    assert (Hin : forall x, In x (bsupport f) -> inb s x /\ V s x < 2 ^ w).
+    { intros x Hx. rewrite forallb_forall in Hsup, Eb. pose proof (Hsup x Hx) as H1. apply N.ltb_lt in H1.
+      split; [exact H1|]. apply (V_le _ _ _ Hwf H1). apply Eb. apply in_rev in Hx. exact Hx. }
+    split.
+    + apply forallb_forall. intros x Hx. apply in_rev in Hx. apply N.ltb_lt. apply (Hin x Hx).
+    + rewrite (node_of_V _ _ _ Hwf E). cbn [CKSym.nval]. fold (V s).
+      rewrite (build_ext _ (fun i => fold_left (fun acc x => xorb acc (N.testbit (V s x) i)) (bsupport f) (bconst0 f))).
+      2:{ intro i. rewrite Eq at 1. unfold bxor_of. rewrite bxor_chain_eval. reflexivity. }
+      rewrite (build_xor_chain (V s) w (bsupport f) (fun _ => bconst0 f)).
+      2:{ apply Forall_forall. intros x Hx. apply (Hin x Hx). }
+      rewrite fold_lxor_xfold, xfold_rev. f_equal.
+      destruct (bconst0 f); [apply build_true|apply build_false].
+  - destruct (N.eqb_spec w0 w) as [->|]; [|intros [= <- <-]; exact Hleaf].
+    intros [= <- <-]. split; [apply (node_of_args _ _ _ Hwf E)|].
+    rewrite (node_of_V _ _ _ Hwf E). reflexivity.
+Qed.
+
+Lemma mk_xorform_ok s w a b :
+  wf s -> inb s a -> inb s b -> (bw s a <=? w) = true -> (bw s b <=? w) = true ->
+  OK s (mk_xorform w a b s) (N.lxor (V s a) (V s b)).
+Proof.
+  intros Hwf Ha Hb Ea Eb. unfold mk_xorform.
+  destruct (xorform s w a) as [ca la] eqn:Xa. destruct (xorform s w b) as [cb lb] eqn:Xb.
+  destruct (xorform_ok _ _ _ _ _ Hwf Ha Ea Xa) as [Fa Va]. destruct (xorform_ok _ _ _ _ _ Hwf Hb Eb Xb) as [Fb Vb].
+  assert (Hv : N.lxor (V s a) (V s b) = N.lxor (N.lxor ca cb) (xfold (V s) (xmerge la lb))).
+  { rewrite Va, Vb, xmerge_ok. apply lxor4. }
+  assert (Hlt : N.lxor (V s a) (V s b) < 2 ^ w) by (apply lxor_lt; apply (V_le _ _ _ Hwf); assumption).
+  assert (Hf : forallb (fun x => x <? N.of_nat (length s)) (xmerge la lb) = true) by (apply xmerge_forall; assumption).
+  rewrite Hv in *. clear Hv Va Vb.
+  destruct (xmerge la lb) as [|x l'] eqn:El.
+  - cbn [xfold]. rewrite N.lxor_0_r. apply mk_const_ok. exact Hwf.
+  - apply (intern_ok rho s (NXor w (N.lxor ca cb) (x :: l')) w Hwf); [exact Hf|exact Hlt].
+Qed.
+
 Lemma mk_bit2_ok s o w a b : wf s -> inb s a -> inb s b -> OK s (mk_bit2 o w a b s) (bop_N o (V s a) (V s b)).
 Proof.
   intros Hwf Ha Hb. unfold mk_bit2.
   destruct ((bw s a <=? w) && (bw s b <=? w)) eqn:E; [|exact I].
   apply andb_true_iff in E as [Ea Eb].
-  assert (Hbdd : OK s (mk_bitnode w (bapply (bop_b o) (bfof s w a) (bfof s w b)) s) (bop_N o (V s a) (V s b))).
-  { destruct (bfof_ok s w a Hwf Ha Ea) as [Fa Va]. destruct (bfof_ok s w b Hwf Hb Eb) as [Fb Vb].
-    replace (bop_N o (V s a) (V s b)) with (bitval s w (bapply (bop_b o) (bfof s w a) (bfof s w b))).
+  assert (Hbdd : OK s (mk_bitnode w (bapply (bop_b o) (bfof_small s w a) (bfof_small s w b)) s) (bop_N o (V s a) (V s b))).
+  { destruct (bfof_small_ok s w a Hwf Ha Ea) as [Fa Va]. destruct (bfof_small_ok s w b Hwf Hb Eb) as [Fb Vb].
+    replace (bop_N o (V s a) (V s b)) with (bitval s w (bapply (bop_b o) (bfof_small s w a) (bfof_small s w b))).
     - apply mk_bitnode_ok; [exact Hwf|apply bapply_lt; assumption].
     - rewrite Va, Vb. unfold bitval. rewrite build_bop. apply build_ext.
       intro i. apply bapply_eval. }
+  assert (Hfin : OK s (match o with
+                       | OXor => if Nat.leb (bleaves (bapply (bop_b o) (bfof_small s w a) (bfof_small s w b))) KLEAVES
+                                 then mk_bitnode w (bapply (bop_b o) (bfof_small s w a) (bfof_small s w b)) s
+                                 else mk_xorform w a b s
+                       | _ => mk_bitnode w (bapply (bop_b o) (bfof_small s w a) (bfof_small s w b)) s
+                       end) (bop_N o (V s a) (V s b))).
+  { destruct o; try exact Hbdd.
+    destruct (Nat.leb (bleaves (bapply (bop_b OXor) (bfof_small s w a) (bfof_small s w b))) KLEAVES); [exact Hbdd|].
+    apply mk_xorform_ok; assumption. }
   destruct (as_const s a) as [ca|] eqn:Ca.
   - destruct (as_const s b) as [cb|] eqn:Cb.
     + rewrite (as_const_V _ _ _ Hwf Ca), (as_const_V _ _ _ Hwf Cb). apply mk_const_ok. exact Hwf.
-    + destruct o; try exact Hbdd;
+    + destruct o; try exact Hfin;
         (destruct (rot_pattern s w a b) as [[r x]|] eqn:R;
          [destruct (rot_pattern_ok _ _ _ _ _ _ Hwf R) as (Hx & Hxor & Hor); cbn [bop_N]; rewrite ?Hxor, ?Hor; apply mk_ror_ok; assumption|];
          destruct (rot_pattern s w b a) as [[r x]|] eqn:R';
          [destruct (rot_pattern_ok _ _ _ _ _ _ Hwf R') as (Hx & Hxor & Hor); cbn [bop_N];
-          rewrite 1?N.lxor_comm, 1?N.lor_comm; rewrite ?Hxor, ?Hor; apply mk_ror_ok; assumption|exact Hbdd]).
-  - destruct o; try exact Hbdd;
+          rewrite 1?N.lxor_comm, 1?N.lor_comm; rewrite ?Hxor, ?Hor; apply mk_ror_ok; assumption|exact Hfin]).
+  - destruct o; try exact Hfin;
         (destruct (rot_pattern s w a b) as [[r x]|] eqn:R;
          [destruct (rot_pattern_ok _ _ _ _ _ _ Hwf R) as (Hx & Hxor & Hor); cbn [bop_N]; rewrite ?Hxor, ?Hor; apply mk_ror_ok; assumption|];
          destruct (rot_pattern s w b a) as [[r x]|] eqn:R';
          [destruct (rot_pattern_ok _ _ _ _ _ _ Hwf R') as (Hx & Hxor & Hor); cbn [bop_N];
-          rewrite 1?N.lxor_comm, 1?N.lor_comm; rewrite ?Hxor, ?Hor; apply mk_ror_ok; assumption|exact Hbdd]).
+          rewrite 1?N.lxor_comm, 1?N.lor_comm; rewrite ?Hxor, ?Hor; apply mk_ror_ok; assumption|exact Hfin]).
 Qed.
 
 Lemma mk_not_ok s w a : wf s -> inb s a -> OK s (mk_not w a s) (N.lxor (wrap w (V s a)) (N.ones w)).
